@@ -148,6 +148,7 @@ class Check:
         "Maps": {"C06", "C14", "C15", "C16"},
         "Chains": {"C06", "C14", "C15", "C17"},
         "MontProg": {"C08"},
+        "Enc": {"C04", "C05", "C19", "C07"},
     }
     ARITH_ALL = {"C01", "C02", "C03", "C04", "C05", "C06", "C07", "C09", "C11", "C12", "C14", "C15", "C17", "C18"}
 
